@@ -24,10 +24,13 @@ func run(tier core.Tier) *core.Report {
 	timed("A", runPartA)
 	timed("C", runPartC)
 	rep.Set("rule", "Part A: index-order enumeration of (rule of the judged object from the box: threshold rules with weights {0,0.4,0.5,1} on every subset of {k1,k2,k3,X2} x accept {0,0.5,1,1.5,2}, key-set rules with <= 2 sets over subsets of the same names) x (nested rule of X2) x (judged object: account X1 / contract method / account X2 where its rule names X1) x (every ordered signer list of size <= 3 over the URI universe; thorough adds every size-4 multiset in three orders); each case goes through aclutils.IdentifyAccount or CheckContractMethodPerm and the by-definition reference, and every (list minus one entry, list) pair is checked for monotonicity. A case is non-trivial when the signer list satisfies at least one member of the judged rule (measured by the reference); cases are distinct tuples by construction. "+
+		"Part A, signed-weight box (same seam, same reference, which sums ALL distinct satisfied members exactly): threshold rules with weights {-1,-0.5,0,0.5,1,2} (thorough adds 1e12 and -1e12) x accept {-1,-0.5,0,0.5,1,2} (thorough adds 1e12) (a) as the rule of the judged object on every subset of <= 3 (thorough: all 4) of {k1,k2,k3,X2} x (nested rule of X2: plain, with a veto key) and (b) as the nested rule of X2 on every subset of {k1,k2,k3} x (rule of the judged object: X2 alone under a threshold, X2 alone as a key set, X2 together with a key, X2 as the vetoing member), each x (judged object: account X1 / contract method) x (every ordered signer list of size <= 3, thorough <= 4, over the 8 URIs of the judged object's universe); sums land exactly on, one step below and one step above the accept value (counted). Monotonicity is judged only in configurations without a negative weight. "+
+		"Order oracle (both boxes of Part A): the verdict is a function of the SET of signer entries, every enumerated list must get the verdict of the same entries in ascending order (all orders of every list of size <= 3, thorough <= 4 in the signed box, are enumerated). "+
 		"Part B: every event sequence of the listed lengths over {SetAccountAcl(new rule, signer choice), SetMethodAcl(signer choice), spend from the account(signer choice), block} on the real chain fixture, each transaction judged at State.VerifyTx against the rule on the confirmed chain; a history is non-trivial when at least one decision was taken while a rule change was still unconfirmed. "+
 		"Part C (fault dimension, evaluation seam): the real acl.Manager over a map-backed store, (rule from a coarser sub-box of Part A) x (nested rule) x (judged object) x (every ordered signer list of size <= 2) x (every fault point of the healthy evaluation: call into the AclManager interface, creation of the confirmed-chain snapshot, Get on the snapshot) x (fault mode: that point once / every point from it on; thorough adds every point with the same target); oracle: a faulted evaluation accepts only if the healthy one does; non-trivial = healthy refusals (they stay refused under every fault). "+
 		"Part D (request form, initiator, pending creation, faults at State.VerifyTx): (prepared state: the Part B snapshot followed by [], [e] or [e, block] for e in {legitimate SetAccountAcl of X1, NewAccount X2, SetMethodAcl cntr.m naming a key / naming X1, binding cntr2 to X1}; thorough adds [a, b] and [a, b, block] for every ordered pair of distinct events, and repeats the quick states with the initial rule Rc) x (op: SetAccountAcl X1 / X2, SetMethodAcl cntr / cntr2, NewAccount X3, binding cntr3 to X1, spend from X1, call cntr.m) x {(request form: named contract, registry shortcut with empty contract name, $vkv put on the same bucket row) x (alone, after, before an unrelated request) x (signer choice) with initiator D; (initiator string from the listed alphabet) x (signer choice) in the named form (thorough: in every form)}; one transaction is built by PreExec on the state and judged by State.VerifyTx; the permission it needs is derived from its write set / inputs / requests and evaluated by Part A's reference (judged both ways for the usual form with a bare-key initiator, acceptance-only otherwise); each transaction with initiator D and its request alone (thorough: in every position) is verified again with every lookup of the ACL manager failing in turn (same points and modes as Part C), differential against the healthy decision; non-trivial = judged decisions plus healthy refusals that stay refused under every fault")
 	rep.Assume("signature verification itself (IdentifyAK / ECDSA) is trusted; Part A takes every listed URI's LAST segment as a verified signer, as State.verifySignatures establishes")
+	rep.Assume("signed-weight box: rules with negative / zero / huge weights and accept values <= 0 are evaluated at the IdentifyAccount / CheckContractMethodPerm seam over a map-backed AclManager; whether the $acl kernel contract stores such rules is not part of this box (its validity check does not look at weights)")
 	rep.Assume("cases where the statement is silent are observed, not judged: URIs with an empty segment, empty key sets, member accounts without a rule, a key named inside a longer path that also signed elsewhere in the list, float sums landing exactly on the threshold with inexact weights")
 	return rep
 }
@@ -103,6 +106,29 @@ func replayA(raw json.RawMessage) (bool, string, error) {
 			return true, "c11.not_monotone: " + msg, nil
 		}
 		return false, msg, nil
+	case "order":
+		// every permutation of the listed entries must get the verdict of the list
+		msg := fmt.Sprintf("%s: signers %v -> %s", c.describe(), cs.Signers, outStr(out))
+		differs := false
+		preal := make([]string, len(real))
+		permute(len(real), func(perm []int) bool {
+			psym := make([]string, len(perm))
+			for i, x := range perm {
+				preal[i] = real[x]
+				psym[i] = cs.Signers[x]
+			}
+			po, _ := impl(c, m, preal)
+			if (po == outAccept) != (out == outAccept) {
+				differs = true
+				msg += fmt.Sprintf("; the same entries as %v -> %s", psym, outStr(po))
+				return false
+			}
+			return true
+		})
+		if differs {
+			return true, "c11.verdict_depends_on_signer_order: " + msg, nil
+		}
+		return false, msg + "; every permutation gets the same verdict", nil
 	}
 	return false, "", fmt.Errorf("c11: unknown check %q", cs.Check)
 }
